@@ -29,6 +29,10 @@ type NodeSpec struct {
 	Dir  string
 }
 
+// ShardRoot is the shard manager's root directory of the node: not the node's own root
+// directory (the two settings are independent; the sample configuration merely aliases them).
+func (n NodeSpec) ShardRoot() string { return filepath.Join(n.Dir, "shards") }
+
 // Host returns the server name of the node as the cluster sees it.
 func (n NodeSpec) Host() string { return fmt.Sprintf("127.0.0.1:%d", n.Port) }
 
@@ -100,7 +104,7 @@ func Config(n NodeSpec, servers []string, o Options) cluster.ClusterNodeConfig {
 		RpcRetries: o.RpcRetries,
 		Servers:    servers,
 		ShardManager: cluster.ShardManagerConfig{
-			RootDir:      n.Dir,
+			RootDir:      n.ShardRoot(), // a directory of its own, as a deployment with shards on a separate volume has
 			ShardTimeout: 3600,
 			MaxCacheSize: o.MaxCacheSize,
 		},
